@@ -131,6 +131,13 @@ def compare_then_copy(ctx: Ctx, rule: str) -> None:
         # copy, killed process) leaves the destination as it was
         if name != "download_link":
             others = [c for c in calls_in(fn.node) if dotted(c.func) in FILE_MUTATORS and not (call_name(c) == site)]
+            # removing a symlink destroys no data: an unlink that every path reaches only under islink(<its argument>) is not a write
+            def _only_links(c_):
+                if dotted(c_.func) not in ("os.unlink", "os.remove") or not c_.args:
+                    return False
+                hits = [(v_, i_) for v_ in views for i_, c2 in v_.calls(lambda x: x is c_)]
+                return bool(hits) and all(norm.implies(v_.premise(i_, 0), expr_formula(v_, i_, f"os.path.islink({ast.unparse(c_.args[0])})")) for v_, i_ in hits)
+            others = [c for c in others if not _only_links(c)]
             ctx.record(rule + "w", "OWNER", fref, f"{name}: the single copy is the only file mutation (nothing is removed or moved beforehand)", not others,
                        {"other_mutations": [ast.unparse(c) for c in others]},
                        "" if not others else f"{name} also does `{ast.unparse(others[0])}`: a copy that fails after it has destroyed the {dst.split('_')[0]} data it was about to replace")
@@ -164,6 +171,33 @@ def link_mode(ctx: Ctx, rule: str) -> None:
                lambda v, i, c: norm.neg(expr_formula(v, i, "os.path.islink(cache_path)")),
                min_sites=1, missing_is_violation=True, what="upload_local delegation",
                describe_required="the cache path is not a symlink (ValueError otherwise)")
+    # "skips the copy when both already match" holds for the link flavour too: a cache link that already points at the pool file is a
+    # finished upload (a chain upload walks over such ancestors), only a link to something else is refused
+    n_r, bad_r = 0, None
+    for v in views2:
+        if v.path.exit == "raise":
+            n_r += 1
+            prem = v.premise(len(v.steps), 0)
+            if not norm.implies(prem, norm.neg(expr_formula(v, len(v.steps), "TransferOps.compare_link(cache_path, pool_path, params)"))):
+                bad_r = v
+    ctx.record(rule + "k", "GUARD", fref2, "upload_link refuses a cache link only if it does not already point at the pool file (a matching link is skipped like any matching copy)",
+               n_r >= 1 and bad_r is None, {"raising_paths": n_r},
+               "" if n_r >= 1 and bad_r is None else "upload_link raises for every cache link, also one that already is the pool file: in link mode setting a state derived from a linked "
+               "state uploads the new top file and then fails on the first linked ancestor of the chain")
+    # a plain download must not write THROUGH a cache link left by an earlier link-mode use (into another pool's file, without its lock)
+    fref3 = f"{OPS}.download_local"
+    views3 = function_views(ctx, fref3, names_interesting({"copy", "islink", "unlink", "compare_local", "image_lock"}, extra=lambda n: isinstance(n, (ast.Raise, ast.Return))))
+    n_c, bad_c = 0, None
+    for v in views3:
+        for i, c in v.calls(lambda c: dotted(c.func) == "shutil.copy"):
+            n_c += 1
+            unl = [j for j, c2 in v.calls(lambda c2: dotted(c2.func) in ("os.unlink", "os.remove") and ast.unparse(c2.args[0]) == "cache_path") if j < i]
+            prem = v.premise(i, 0)
+            if not unl and not norm.implies(prem, norm.neg(expr_formula(v, i, "os.path.islink(cache_path)"))):
+                bad_c = v
+    ctx.record(rule + "d", "GUARD", fref3, "download_local copies onto the cache path only when it is not a link (a link is removed first)", n_c >= 1 and bad_c is None, {"copy_sites": n_c},
+               "" if n_c >= 1 and bad_c is None else "shutil.copy follows a cache symlink left by an earlier link-mode use: the download overwrites the file of the pool the link points to "
+               "(without that pool's lock) and the cache stays a link")
 
 
 def lock_typestate(ctx: Ctx, rule: str) -> None:
@@ -396,6 +430,28 @@ def transfer_details(ctx: Ctx, rule: str) -> None:
                        "" if ok else f"{name}: {var} is no longer 'hash if the file exists else \'\'' (a missing file can compare equal to a present one, or an existing one is not read)")
 
 
+def remote_missing(ctx: Ctx, rule: str) -> None:
+    """compare_local maps a missing file to the empty hash (so that 'missing' never equals 'present'); compare_remote must do the same for
+    the remote side, or every upload of a state that is new on the remote side fails in the comparison that precedes it."""
+    fref = f"{OPS}.compare_remote"
+    fn = ctx.repo.func(fref)
+    ctx.touch(fref)
+    views = function_views(ctx, fref, names_interesting({"hash_file", "cmd_status_output", "cmd_status", "exists"}))
+    n, bad = 0, None
+    for v in views:
+        for i, c in v.calls(lambda c: call_name(c) == "hash_file" and ast.unparse(c.func.value) == "ops"):
+            n += 1
+            prem = v.premise(i, 0)
+            guarded = any(("status" in a or "test -e" in a or ("exists" in a and "cache_path" not in a)) for a in norm.atoms_of(prem))
+            in_try = any(isinstance(t, ast.Try) and any(c is x for b_ in t.body for x in ast.walk(b_)) for t in ast.walk(fn.node))
+            if not guarded and not in_try:
+                bad = v
+    ctx.record(rule, "GUARD", fref, "the remote file is hashed only if it exists; a missing remote file compares as the empty hash (as compare_local does for the local side)",
+               n >= 1 and bad is None, {"hash_sites": n},
+               "" if n >= 1 and bad is None else "compare_remote hashes the remote path unconditionally: for a missing file the remote pipeline prints an error, hash_file raises "
+               "'unexpected characters', and upload_remote (which compares first) can never upload a state that is new on the remote side")
+
+
 def whole_file_compare(ctx: Ctx, rule: str) -> None:
     """'Skips the copy when both already match' and 'destination byte-identical' need a comparison of the complete files."""
     n = 0
@@ -424,6 +480,7 @@ def run(ctx: Ctx) -> None:
     from .c13 import fresh_checksums
 
     ctx.call(whole_file_compare, "2h")
+    ctx.call(remote_missing, "8m")
     ctx.call(transfer_details, "8")
 
     ctx.call(fresh_checksums, "2f")
@@ -439,6 +496,9 @@ def run(ctx: Ctx) -> None:
 
 
 MUTANTS = [
+    ("link-upload-raises-before-compare", POOL, "            if TransferOps.compare_link(cache_path, pool_path, params):\n                logging.info(f\"Skip upload of an already linked {cache_path}\")\n                return\n", "", "4k"),
+    ("download-writes-through-link", POOL, "            if os.path.islink(cache_path):\n                os.unlink(cache_path)\n            shutil.copy(pool_path, cache_path)", "            shutil.copy(pool_path, cache_path)", "4d"),
+    ("remote-compare-hashes-missing", POOL, "        if status == 0:\n            remote_hash = ops.hash_file(session, path, \"1M\", \"md5\")\n        else:\n            remote_hash = \"\"\n", "        remote_hash = ops.hash_file(session, path, \"1M\", \"md5\")\n", "8m"),
     ("upload-unlinks-first", POOL, "            os.makedirs(os.path.dirname(pool_path), exist_ok=True)\n            shutil.copy(cache_path, pool_path)", "            os.makedirs(os.path.dirname(pool_path), exist_ok=True)\n            if os.path.lexists(pool_path):\n                os.unlink(pool_path)\n            shutil.copy(cache_path, pool_path)", "2w"),
     ("lock-owner-trace", POOL, "        try:\n            yield fd\n        finally:\n            fcntl.lockf(fd, fcntl.LOCK_UN)", "        with open(lockfile, \"w\") as trace:\n            trace.write(\"owner\")\n        try:\n            yield fd\n        finally:\n            fcntl.lockf(fd, fcntl.LOCK_UN)", "5c"),
     ("P-lock-flag-instead-of-for-else", POOL, '        for _ in range(timeout):\n            try:\n                fcntl.lockf(fd, fcntl.LOCK_EX | fcntl.LOCK_NB)\n            except IOError as error:\n                # block here but still support a finite timeout\n                if error.errno != errno.EACCES and error.errno != errno.EAGAIN:\n                    raise\n            else:\n                break\n            logging.debug("Waiting for image to become available")\n            time.sleep(1)\n        else:\n', '        lock_acquired = False\n        for _ in range(timeout):\n            try:\n                fcntl.lockf(fd, fcntl.LOCK_EX | fcntl.LOCK_NB)\n            except IOError as error:\n                # block here but still support a finite timeout\n                if error.errno != errno.EACCES and error.errno != errno.EAGAIN:\n                    raise\n            else:\n                lock_acquired = True\n                break\n            logging.debug("Waiting for image to become available")\n            time.sleep(1)\n        if not lock_acquired:\n', None),
@@ -448,17 +508,17 @@ MUTANTS = [
     ("missing-file-marker-inverted", POOL, "        if os.path.exists(pool_path):\n            remote_hash = crypto.hash_file(pool_path, 1048576, \"md5\")", "        if not os.path.exists(pool_path):\n            remote_hash = crypto.hash_file(pool_path, 1048576, \"md5\")", "8e"),
     ("compare-first-4k-only", POOL, "            local_hash = crypto.hash_file(cache_path, 1048576, \"md5\")\n        else:\n            local_hash = \"\"\n        if os.path.exists(pool_path):",
      "            local_hash = crypto.hash_file(cache_path, 4096, \"md5\")\n        else:\n            local_hash = \"\"\n        if os.path.exists(pool_path):", "2h"),
-    ("copy-outside-lock", POOL, "                return\n            shutil.copy(pool_path, cache_path)", "                return\n        shutil.copy(pool_path, cache_path)", "1m"),
+    ("copy-outside-lock", POOL, "                os.unlink(cache_path)\n            shutil.copy(pool_path, cache_path)", "                os.unlink(cache_path)\n        shutil.copy(pool_path, cache_path)", "1m"),
     ("lock-cache-path", POOL, "        with image_lock(pool_path, update_timeout) as lock:\n            if TransferOps.compare_local(cache_path, pool_path, params):\n                logging.info(f\"Skip upload",
      "        with image_lock(cache_path, update_timeout) as lock:\n            if TransferOps.compare_local(cache_path, pool_path, params):\n                logging.info(f\"Skip upload", "1"),
-    ("copy-before-compare", POOL, "            if TransferOps.compare_local(cache_path, pool_path, params):\n                logging.info(f\"Skip download of an already available {cache_path}\")\n                return\n            shutil.copy(pool_path, cache_path)",
-     "            shutil.copy(pool_path, cache_path)\n            if TransferOps.compare_local(cache_path, pool_path, params):\n                logging.info(f\"Skip download of an already available {cache_path}\")\n                return", "2"),
+    ("copy-before-compare", POOL, "            if TransferOps.compare_local(cache_path, pool_path, params):\n                logging.info(f\"Skip download of an already available {cache_path}\")\n                return\n            # a link from an earlier link mode use must not be written through\n            if os.path.islink(cache_path):\n                os.unlink(cache_path)\n            shutil.copy(pool_path, cache_path)",
+     "            if os.path.islink(cache_path):\n                os.unlink(cache_path)\n            shutil.copy(pool_path, cache_path)\n            if TransferOps.compare_local(cache_path, pool_path, params):\n                logging.info(f\"Skip download of an already available {cache_path}\")\n                return", "2"),
     ("no-finally", POOL, "        try:\n            yield fd\n        finally:\n            fcntl.lockf(fd, fcntl.LOCK_UN)", "        yield fd\n        fcntl.lockf(fd, fcntl.LOCK_UN)", "5y"),
     ("exhaustion-passes", POOL, "            raise RuntimeError(\n                f\"Waiting to acquire {lockfile} took more than \"\n                f\"the allowed {timeout} seconds\"\n            )",
      "            logging.warning(f\"Waiting to acquire {lockfile} took too long\")", "5e"),
     ("lockfile-removed-on-release", POOL, "        finally:\n            fcntl.lockf(fd, fcntl.LOCK_UN)", "        finally:\n            os.unlink(lockfile)\n            fcntl.lockf(fd, fcntl.LOCK_UN)", "5y"),
-    ("link-guard-narrowed", POOL, "        if os.path.islink(cache_path):\n            raise ValueError(\"Cannot upload a symlink to its destination\")",
-     "        if os.path.islink(cache_path) and os.path.realpath(cache_path) == pool_path:\n            raise ValueError(\"Cannot upload a symlink to its destination\")", "4v"),
+    ("link-guard-narrowed", POOL, "                return\n            raise ValueError(\"Cannot upload a symlink to its destination\")\n        else:\n            TransferOps.upload_local(cache_path, pool_path, params)",
+     "                return\n            if os.path.realpath(cache_path) == pool_path:\n                raise ValueError(\"Cannot upload a symlink to its destination\")\n        TransferOps.upload_local(cache_path, pool_path, params)", "4v"),
     ("data-replaced-by-link", POOL, "            if not os.path.islink(cache_path) and os.path.exists(cache_path):\n                raise RuntimeError(", "            if not os.path.islink(cache_path) and not os.path.exists(cache_path):\n                raise RuntimeError(", "4"),
     ("upload-direction", POOL, "            shutil.copy(cache_path, pool_path)", "            shutil.copy(pool_path, cache_path)", "2d"),
     ("shared-lock", POOL, "fcntl.lockf(fd, fcntl.LOCK_EX | fcntl.LOCK_NB)", "fcntl.lockf(fd, fcntl.LOCK_SH | fcntl.LOCK_NB)", "5t"),
